@@ -18,7 +18,7 @@
    [spec_more] = limit <> 0 and more than skip+limit streams match. *)
 From Coq Require Import List NArith ZArith Bool Permutation Sorted.
 Import ListNotations.
-Require Import Pk.Search Pk.SearchProofs Pk.SearchWitness.
+Require Import Pk.Search Pk.SearchProofs Pk.SearchSubProofs Pk.SearchWitness.
 
 (* ---------------------------------------------------------------- comparators *)
 (* every sort key list (any keys, any directions, any length) orders result entries by a strict weak
@@ -206,10 +206,13 @@ Proof. exact sel_remove_spec. Qed.
    its forbidden combinations; the conjunct matches iff something is left.  Proved: this is exactly
    "some allowed combination of sub-query results is forbidden by none of the relations", i.e. the
    existential meaning of sub-queries.
-   PARTIAL: how each condition type (number, time, host, flag) computes its forbidden sets from the previous
-   results is not modelled; with these filters as the given [qp_filter] all theorems about the main search
-   above apply unchanged, and the correspondence check compares them on every generated case with the
-   oracle's meaning "streams for the sub-queries exist such that the formula holds". *)
+   PARTIAL: for NUMBER and TIME relations the computation of the forbidden sets is modelled and proved exact
+   (c02_subquery_number_time_relation_exact below).  What remains given, not modelled: the forbidden sets of
+   HOST relations (byte compare under the mask per sub-query result, or per-host-group IP-version sets) and
+   of FLAG/protocol relations (xor table over the sub-query results).  With these filters as the given
+   [qp_filter] all theorems about the main search above apply unchanged, and the correspondence check
+   compares them on every generated case with the oracle's meaning "streams for the sub-queries exist such
+   that the formula holds". *)
 Theorem c02_subquery_relation_filters_partial : forall dom ops sel,
   sel_wf dom sel -> Forall (op_ok dom) ops ->
   (rel_filters ops sel = true <->
@@ -220,3 +223,40 @@ Example c02_subquery_selection_non_vacuous :
   sel_wf [0; 1] ws_sel /\ Forall (op_ok [0; 1]) ws_ops /\
   rel_filters ws_ops ws_sel = true /\ rel_filters (ws_ops ++ [([1], [[1]])]) ws_sel = false.
 Proof. split; [exact ws_wf|split; [exact ws_ops_ok|exact ws_filters]]. Qed.
+
+(* The values of a sub-query's results are grouped by value, ascending (map + append + sort.Slice): every
+   result position is in exactly the group of its value. *)
+Theorem c02_subquery_value_grouping : forall vals, data_ok (group_values vals) vals.
+Proof. exact group_values_ok. Qed.
+
+(* A NumberCondition or TimeCondition that relates the stream to k+1 sub-queries
+     n + sum_i value_i(result chosen for sub-query i) >= 0        (n = constant + the stream's own terms)
+   as compiled by buildSearchObjects: grouping and sorting of the sub-query values, cumulative position sets of
+   the last sub-query, the minSum/maxSum shortcuts, the odometer over the value combinations of the leading
+   sub-queries, the binary search for the last invalid value, and the removes on the shared selection.
+   The filter answers true exactly when some allowed combination satisfies the relation, and then the
+   selection it leaves allows exactly the previously allowed combinations that satisfy it -- for every n, any
+   number of sub-queries, any values (duplicates, negative factors already multiplied in), any selection whose
+   positions exist. *)
+Theorem c02_subquery_number_time_relation_exact :
+  forall (dom : list nat) (n : Z) (sqs : list nat) (sl : nat) (vals : list (list Z)) (vl : list Z),
+    length sqs = length vals ->
+    (forall sq, In sq (sqs ++ [sl]) -> In sq dom) ->
+    forall sel : subsel,
+      sel_wf dom sel -> sel <> [] -> sel_in_range sqs sl vals vl sel ->
+      let r := number_filter n (sqs ++ [sl]) (map group_values (vals ++ [vl])) sel in
+      (snd r = true <->
+       exists c, sel_allows dom c sel /\ (0 <= n + csum c (sqs ++ [sl]) (vals ++ [vl]))%Z) /\
+      (snd r = true ->
+       sel_wf dom (fst r) /\
+       forall c, sel_allows dom c (fst r) <->
+                 sel_allows dom c sel /\ (0 <= n + csum c (sqs ++ [sl]) (vals ++ [vl]))%Z).
+Proof. exact number_filter_exact. Qed.
+
+(* `cport:@a:cport@` for a stream with cport 1001, part ">= ": n = 1001, values -cport of a's results *)
+Example c02_number_relation_example :
+  let sel := [fun k : nat => match k with 0 => [0; 1; 2] | _ => [] end] in
+  snd (number_filter 1001 [0] [group_values [-1000; -1001; -1002]%Z] sel) = true /\
+  map (fun m : selmap => m 0) (fst (number_filter 1001 [0] [group_values [-1000; -1001; -1002]%Z] sel)) = [[0; 1]] /\
+  snd (number_filter 999 [0] [group_values [-1000; -1001; -1002]%Z] sel) = false.
+Proof. vm_compute. repeat split; reflexivity. Qed.
